@@ -11,8 +11,8 @@ SynthSnap(w) == [n \in 1 .. Len(w.nodes) |->
    [mode |-> (IF w.nodes[n].kind = "dir" THEN 16384 ELSE 32768) + w.nodes[n].mode, sizen |-> SizeOfNode(w.nodes[n]),
     uidn |-> w.nodes[n].uid, gidn |-> w.nodes[n].gid, nlinkn |-> 1, mtime |-> w.nodes[n].mtime]]
 Rec3 == [world |-> W3, snapshot |-> SynthSnap(W3)]
-EntryOf(n) == [name |-> W3.nodes[n].namec, size |-> SizeOfNode(W3.nodes[n]), uid |-> W3.nodes[n].uid,
-               isdir |-> (W3.nodes[n].kind = "dir"), mtime |-> W3.nodes[n].mtime]
+EntryOf(n) == [name |-> W3.nodes[n].namec, ext |-> ExtC(W3.nodes[n].namec), size |-> SizeOfNode(W3.nodes[n]), uid |-> W3.nodes[n].uid, gid |-> W3.nodes[n].gid,
+               isdir |-> (W3.nodes[n].kind = "dir"), isfile |-> (W3.nodes[n].kind = "file"), mtime |-> W3.nodes[n].mtime]
 Agree(style) == LET ast == ParseWhere(LexAll(<<QueryC(style)>>)) IN
    ast.ok /\ \A n \in 1 .. Len(W3.nodes) :
       LET c == ConformsR(ast.e, EntryOf(n))  p == EvalP(Rec3, n, toks, 1, Atoms(tab))[1] IN
